@@ -530,6 +530,43 @@ def run(chk):
             chk.ob("C06-D10.group", o["function"], o["construct"], o["ok"], o["where"], o["detail"], o["expected"])
     chk.floor("C06-D10.group", ng, 4, "methods that set the member tested by the writer")
 
+    # ------------------------------------------------------------------ D13 per-dimension members rebuilt from a point set that may be empty
+    chk.rule("C06-D13.perdim", "a reader that rebuilds a per-dimension member with getMaxIndexes(loaded-or-needed points) does so only where one of the two sets is known to be non-empty: "
+                               "for a grid written in the middle of a construction both can be empty, getMaxIndexes() of an empty set has no entries and every later `member[j]` "
+                               "with j < num_dimensions reads past the end")
+    npd = 0
+    for rd in [f for fs_ in db.load_all().values() for f in fs_ if "GridReaderVersion5" in f.key and short(f.name) == "read"]:
+        for c in rd.calls():
+            if short(callee(c) or "") != "getMaxIndexes" or not is_reachable(rd, c) or not call_args(c):
+                continue
+            a = strip(call_args(c)[0])
+            while a is not None and a.get("k") == "ParenExpr":
+                a = strip(a["c"][0])
+            if a is None or a.get("k") != "ConditionalOperator":
+                continue
+            npd += 1
+            chk.saw(rd)
+            branches = [txt(strip(x)).split("->")[-1] for x in a.get("c", [])[1:3]] if len(a.get("c", [])) >= 3 else []
+            sel = txt(strip(a.get("cond") or a["c"][0]))
+            other = [b for b in branches if b and (b + ".empty()") not in sel.replace("grid->", "")]
+            ok = False
+            for cn, tr in cond_edges_dominating(rd, c):
+                t = txt(strip(cn)).replace("grid->", "")
+                if any((o + ".empty()") in t for o in other):
+                    ok = True
+            # the false edge of `P.empty() and N.empty()` cannot be split into edge facts: look at the enclosing if statements as a whole
+            prev = c
+            for anc in rd.ancestors(c):
+                if anc.get("k") == "IfStmt" and anc.get("cond") is not None:
+                    t = txt(strip(anc["cond"])).replace("grid->", "")
+                    in_else = anc.get("else") is not None and any(x is c for x in walk(anc["else"]))
+                    if in_else and all((o + ".empty()") in t for o in other) and "||" not in t and " or " not in t:
+                        ok = True
+                prev = anc
+            chk.ob("C06-D13.perdim", rd.key, "getMaxIndexes(%s) only where the selected set cannot be empty" % txt(a)[:50], ok, rd.loc(c),
+                   "" if ok else "no test of `%s.empty()` dominates this call: when both sets are empty the member gets zero entries" % (other[0] if other else "?"))
+    chk.floor("C06-D13.perdim", npd, 1, "per-dimension members rebuilt by a reader from a selected point set")
+
     from rules import seqnodes
     nsq = seqnodes.seqnodes_rule(chk, db, "C06-D12.nodes")
     chk.floor("C06-D12.nodes", nsq, 2, "index sets converted to coordinates in GridSequence")
